@@ -37,6 +37,9 @@ type RefOpts struct {
 	NegIdx       bool
 	AllowMissing bool
 	Ensure       bool
+	// EmptyTok: an empty reference token is the member name "" (RFC 6901) instead of "outside the domain"; used by
+	// the C13 family for the LAST token of a remove only (C01 states empty tokens as outside; as ancestors and on arrays they stay outside)
+	EmptyTok bool
 }
 
 const (
@@ -97,6 +100,10 @@ func classifyIndex(name []byte) (kind int, val int) {
 	v := 0
 	for k := p; k < n; k++ {
 		v = v*10 + int(name[k]-'0')
+	}
+	if n-p > 18 {
+		// beyond any array length (and possibly beyond int): no wrap-around in the reference
+		v = 1 << 62
 	}
 	if neg {
 		return ixNeg, -v
@@ -169,7 +176,7 @@ func (s *refState) parent(p Ptr) (*JV, Tok, bool) {
 		}
 	}
 	last := p.Toks[n-1]
-	if len(last.Raw) == 0 {
+	if len(last.Raw) == 0 && !(s.opts.EmptyTok && cur.K == JObj) {
 		s.outside = true
 		return nil, Tok{}, false
 	}
